@@ -3,7 +3,8 @@
 Pairs (g1, g2): g2 = relabelled + shuffled g1, optionally with one minimal perturbation (near-miss). Truth is decided by the
 independent backtracking oracle (pbt/oracle/iso.py); rdflib's compare.isomorphic, to_isomorphic equality, internal_hash,
 to_canonical_graph, graph_diff and skolemize/de_skolemize are checked against it, on plain graphs, on further relabelled copies of the first
-graph and on ReadOnlyGraphAggregate views of the same triples."""
+graph and on ReadOnlyGraphAggregate views of the same triples. A second leg (skolem) round-trips graphs of up to 260 (400) blank nodes
+through skolemize()/de_skolemize() in its three addressing modes and checks the result by the nodes' own labels."""
 from __future__ import annotations
 
 import json
@@ -287,10 +288,59 @@ def pairs(draw, tier):
                 seen.add(repr(t)); d2.append(t)
         g2 = d2
     copies = [[draw(st.permutations(range(len(labels)))), draw(st.lists(st.integers(0, 9), min_size=4, max_size=4))]
-              for _ in range(draw(st.sampled_from([0, 0, 2, 3])))] if labels else []
+              for _ in range(5 if fam in ("two-permutations", "overlay") else draw(st.sampled_from([0, 0, 2, 3])))] if labels else []
     edit = draw(st.one_of(st.none(), st.tuples(st.integers(0, 30), st.integers(0, 30)).map(list)))
     return {"family": fam, "g1": g1, "g2": g2, "perturb": perturb, "skolem": draw(st.integers(0, 1)), "edit": edit, "copies": copies,
             "view": draw(st.sampled_from([0, 0, 1, 2]))}
 
 
-SUBCHECKS = [Sub("pairs", lambda tier: pairs(tier), run, {"quick": 3200, "thorough": 48000})]
+# ---------------------------------------------------------------- skolem round trip of graphs with many blank nodes
+def run_skolem(case):
+    """n blank nodes, each with a label literal of its own and a link to the k-th next one; skolemize(...).de_skolemize() must give back
+    a graph in which every label still belongs to one node and the links still connect the same labels (the labels make the check exact
+    without an isomorphism search)"""
+    out = Out()
+    n, step, order, mode = case["n"], case["step"], case["order"], case["mode"]
+    from rdflib import BNode, Literal, URIRef
+    LBL, NXT = URIRef("urn:label"), URIRef("urn:next")
+    nodes = [BNode("r%d" % i) for i in range(n)]
+    attrs = [(nodes[i], LBL, Literal(i)) for i in range(n)]
+    links = [(nodes[i], NXT, nodes[(i + step) % n]) for i in range(n)]
+    triples = attrs + links if order == 0 else (links + attrs if order == 1 else [t for pair in zip(attrs, links) for t in pair])
+    g = Graph()
+    for t in triples:
+        g.add(t)
+    kw = [{}, {"authority": "http://ex.org"}, {"authority": "http://ex.org/", "basepath": "/.well-known/genid/"}][mode]
+    with warnings.catch_warnings():
+        warnings.simplefilter("ignore")
+        r = sut(lambda: g.skolemize(**kw).de_skolemize())
+    if is_err(r):
+        out.fail(("skolem-raises", r.kind, r.site), f"{case}: {r!r}")
+        return out
+    owner = {}
+    for s_, _, o in r.triples((None, LBL, None)):
+        owner.setdefault(int(o), set()).add(s_)
+    bn = {x for t in r for x in (t[0], t[2]) if isinstance(x, BNode)}
+    if len(r) != 2 * n or len(bn) != n or any(len(v) != 1 for v in owner.values()) or len(owner) != n:
+        out.fail(("skolem-roundtrip-many-nodes", "node-count", str(mode)), f"{case}: {len(bn)} blank nodes and {len(r)} triples after the round trip, {n} and {2 * n} before")
+        return out
+    node_of = {i: next(iter(v)) for i, v in owner.items()}
+    for i in range(n):
+        if (node_of[i], NXT, node_of[(i + step) % n]) not in r:
+            out.fail(("skolem-roundtrip-many-nodes", "links", str(mode)), f"{case}: the link from label {i} is gone")
+            return out
+    if any(not isinstance(x, BNode) for x in node_of.values()):
+        out.fail(("skolem-roundtrip-many-nodes", "not-blank", str(mode)), str(case))
+        return out
+    out.nontrivial = n > 128
+    out.cls("mode:%d" % mode, "n>128" if n > 128 else "n<=128")
+    return out
+
+
+def skolem_cases(tier):
+    return st.fixed_dictionaries({"n": st.one_of(st.integers(2, 40), st.integers(129, 400 if tier == "thorough" else 260)), "step": st.integers(1, 7),
+                                  "order": st.integers(0, 2), "mode": st.integers(0, 2)})
+
+
+SUBCHECKS = [Sub("pairs", lambda tier: pairs(tier), run, {"quick": 3200, "thorough": 48000}),
+             Sub("skolem", skolem_cases, run_skolem, {"quick": 320, "thorough": 4000})]
